@@ -578,6 +578,21 @@ fn c07_cases(quick: bool) -> Vec<Case> {
                             wrapped[bi] = Tr::Anyo(Box::new(leaves[bi].clone()));
                             out.push(Case { tree: Tr::Conde(wrapped.clone()), leaves: a.clone() });
                             out.push(Case { tree: Tr::Disj(wrapped), leaves: a.clone() });
+                            // the same branch as the head of a committed choice (conda / condu
+                            // clause, onceo body): a head that never answers must not block
+                            for cc in 0..3 {
+                                let mut w2 = leaves.clone();
+                                w2[bi] = match cc {
+                                    0 => Tr::Conda(vec![(leaves[bi].clone(), Tr::Succeed), (Tr::Succeed, Tr::Succeed)]),
+                                    1 => Tr::Condu(vec![(leaves[bi].clone(), Tr::Succeed)]),
+                                    _ => Tr::Onceo(Box::new(leaves[bi].clone())),
+                                };
+                                // only heads that diverge: a finite failing head would let the
+                                // second conda clause answer, which is a different program
+                                if !sc.finite() {
+                                    out.push(Case { tree: Tr::Conde(w2), leaves: a.clone() });
+                                }
+                            }
                         }
                     }
                     // a statically failing branch (`false`) in every position among the others:
